@@ -3,6 +3,7 @@ import Proofs.Lemmas.ReqSite
 import Proofs.Lemmas.ReqLimit
 import Proofs.Lemmas.ReqReg
 import Proofs.Lemmas.ReqIC
+import Proofs.Lemmas.ReqCap
 import Generated.C11Superglobals
 /-!
 # C11 — concurrent HTTP requests do not interfere: a response depends on its request
@@ -697,6 +698,144 @@ theorem C11_callsite_generated :
   exact C11_callsite_no_memory w (by simp [w, publishOf, hv]) r sched hdone
 
 end CallSite
+
+/-! ## Values captured by value by the shared handler closure (`Model.ReqCap`, round 7)
+
+The route handler is ONE closure; what it captured by value at boot must reach every call as the
+call's own copy — for every kind of value that can be changed in place, hidden iterator state
+included. -/
+section Capture
+
+/-- every request that a schedule lets finish is answered as when served alone -/
+def CaptureIsolated (w : Model.ReqCap.World) : Prop :=
+  ∀ (r : Model.ReqCap.Rid) (sched : List Model.ReqCap.Rid),
+    Model.ReqCap.finished (Model.ReqCap.run w (Model.ReqCap.init w) sched) r = true →
+    Model.ReqCap.response (Model.ReqCap.run w (Model.ReqCap.init w) sched) r = Model.ReqCap.soloResponse w r
+
+/-- **Isolation, prefix form.** With a private binding (the capture copies, or the value is
+immutable) the whole state of a request after ANY schedule — any number of requests running the
+same closure, complete or not — is the iterate of its own turns over the boot value, and the value
+of the definition-time environment is untouched. -/
+theorem C11_capture_isolation_prefix (w : Model.ReqCap.World) (hp : Model.ReqCap.bindsPrivate w = true)
+    (r : Model.ReqCap.Rid) (sched : List Model.ReqCap.Rid) :
+    (Model.ReqCap.run w (Model.ReqCap.init w) sched).shared = (Model.ReqCap.init w).shared ∧
+    (Model.ReqCap.run w (Model.ReqCap.init w) sched).reqs r =
+      (Model.ReqCap.run w (Model.ReqCap.init w) (List.replicate (sched.count r) r)).reqs r := by
+  have h := Proofs.ReqCap.run_private w hp sched _ (Proofs.ReqCap.init_noAlias w)
+  have h' := Proofs.ReqCap.run_private w hp (List.replicate (sched.count r) r) _ (Proofs.ReqCap.init_noAlias w)
+  refine ⟨h.1, ?_⟩
+  rw [h.2 r, h'.2 r, List.count_replicate_self]
+
+/-- **Isolation.** With a private binding a request that finishes under any schedule answers what
+it answers alone, and that is `Spec.ReqCap.respond` of the boot content, its own datum and its
+own program: no other request, no schedule. -/
+theorem C11_capture_isolation (w : Model.ReqCap.World) (hp : Model.ReqCap.bindsPrivate w = true) :
+    CaptureIsolated w ∧
+    ∀ r, Model.ReqCap.soloResponse w r =
+      Spec.ReqCap.respond w.boot (w.datum r) ((w.prog r).map Proofs.ReqCap.toOp) := by
+  have hsolo : ∀ r, (Model.ReqCap.run w (Model.ReqCap.init w) (List.replicate ((w.prog r).length + 2) r)).reqs r =
+      Proofs.ReqCap.iter ((w.prog r).length + 2) (Proofs.ReqCap.ownStep w r (Model.ReqCap.init w).shared)
+        ((Model.ReqCap.init w).reqs r) := by
+    intro r
+    have h' := Proofs.ReqCap.run_private w hp (List.replicate ((w.prog r).length + 2) r) _ (Proofs.ReqCap.init_noAlias w)
+    rw [h'.2 r, List.count_replicate_self]
+  constructor
+  · intro r sched hdone
+    have h := Proofs.ReqCap.run_private w hp sched _ (Proofs.ReqCap.init_noAlias w)
+    unfold Model.ReqCap.soloResponse Model.ReqCap.response
+    unfold Model.ReqCap.finished at hdone
+    rw [hsolo r, h.2 r]
+    rw [h.2 r] at hdone
+    rw [Proofs.ReqCap.iter_stable (Proofs.ReqCap.ownStep w r (Model.ReqCap.init w).shared)
+      (fun rs => rs.body.isSome = true) (fun rs hrs => Proofs.ReqCap.ownStep_done w r _ rs hrs) _ _ _ hdone
+      (by rw [Proofs.ReqCap.solo_spec w hp r]; rfl)]
+  · intro r
+    unfold Model.ReqCap.soloResponse Model.ReqCap.response
+    rw [hsolo r, Proofs.ReqCap.solo_spec w hp r]
+    rfl
+
+/-- a read-only handler: `foreach` over the captured value, parked after the first iteration -/
+def capLoop : List Model.ReqCap.Step := [.rewind, .next, .gate, .next, .next, .write]
+/-- a handler that stores its request's datum in the captured value, parks and reads it back -/
+def capStore : List Model.ReqCap.Step := [.set 0, .gate, .readAll, .write]
+
+def capWorld (kind : Model.ReqCap.Kind) (copied : Bool) (prog : List Model.ReqCap.Step) : Model.ReqCap.World :=
+  { kind := kind, copied := copied, boot := [1, 2, 3], prog := fun _ => prog, datum := fun r => 7 + r }
+
+/-- request 0 enters the closure and is parked; request 1 runs the same closure to the end; request 0 goes on -/
+def capSched : List Model.ReqCap.Rid := [0, 0, 0] ++ List.replicate 8 1 ++ List.replicate 6 0
+
+/-- **Negation witness — hidden state.** The handler only READS the captured `{k: v}` object. With
+a binding that does not copy, request 0 parked inside its foreach while request 1 loops over the
+same value answers `[1]` (the cursor it shares was moved to the end); alone, and with a copying
+binding under the same schedule, `[1, 2, 3]`. Same for arrays. -/
+theorem C11_capture_cursor_leaks :
+    Model.ReqCap.response (Model.ReqCap.run (capWorld .obj false capLoop) (Model.ReqCap.init (capWorld .obj false capLoop)) capSched) 0 = [1] ∧
+    Model.ReqCap.soloResponse (capWorld .obj false capLoop) 0 = [1, 2, 3] ∧
+    Model.ReqCap.response (Model.ReqCap.run (capWorld .obj true capLoop) (Model.ReqCap.init (capWorld .obj true capLoop)) capSched) 0 = [1, 2, 3] ∧
+    Model.ReqCap.response (Model.ReqCap.run (capWorld .arr false capLoop) (Model.ReqCap.init (capWorld .arr false capLoop)) capSched) 0 = [1] := by
+  decide
+
+/-- **Negation witness — content.** Request 0 stores its datum 7, is parked, request 1 stores 8:
+request 0 reads back `[8, 2, 3]`; alone `[7, 2, 3]`; with a copying binding `[7, 2, 3]`. -/
+theorem C11_capture_write_leaks :
+    Model.ReqCap.response (Model.ReqCap.run (capWorld .obj false capStore) (Model.ReqCap.init (capWorld .obj false capStore)) capSched) 0 = [8, 2, 3] ∧
+    Model.ReqCap.soloResponse (capWorld .obj false capStore) 0 = [7, 2, 3] ∧
+    Model.ReqCap.response (Model.ReqCap.run (capWorld .obj true capStore) (Model.ReqCap.init (capWorld .obj true capStore)) capSched) 0 = [7, 2, 3] := by
+  decide
+
+/-- **Isolated iff the capture copies every mutable kind.** For a kind of value and a binding
+discipline: every boot content, every program (read-only ones included), every number of requests
+and every schedule is isolated exactly when the kind is immutable or the binding copies it. -/
+theorem C11_capture_isolated_iff (kind : Model.ReqCap.Kind) (copied : Bool) :
+    (∀ (boot : List Nat) (prog : Model.ReqCap.Rid → List Model.ReqCap.Step) (datum : Model.ReqCap.Rid → Nat),
+      CaptureIsolated { kind := kind, copied := copied, boot := boot, prog := prog, datum := datum }) ↔
+    (kind = .scalar ∨ copied = true) := by
+  constructor
+  · intro h
+    have h0 := h [1, 2, 3] (fun _ => capLoop) (fun r => 7 + r) 0 capSched
+    cases kind <;> cases copied <;> simp
+    · exact absurd (h0 (by decide)) (by decide)
+    · exact absurd (h0 (by decide)) (by decide)
+  · intro hk boot prog datum
+    refine (C11_capture_isolation _ ?_).1
+    rcases hk with hk | hk <;> simp [Model.ReqCap.bindsPrivate, hk]
+
+/-- the full statement without the copy hypothesis is false -/
+theorem C11_capture_isolation_counterexample :
+    ¬ (∀ w : Model.ReqCap.World, CaptureIsolated w) := by
+  intro h
+  exact absurd (h (capWorld .obj false capLoop) 0 capSched (by decide)) (by decide)
+
+/-- **Obligation + instance.** On the analysed tree every value a closure reads from its
+definition-time environment is either aliased under the by-reference guard or stored through the
+slot store (`captureBinds`: no direct store, no escape), and the slot store clones arrays and
+`{k: v}` objects (`slotCopies`) — hence `copiedOf facts` is true for every kind and every request
+running the shared closure is answered as `Spec.ReqCap.respond` says, under every schedule. -/
+theorem C11_capture_generated :
+    Generated.C11Superglobals.facts.captureViolations = [] ∧
+    ∀ (kind : Model.ReqCap.Kind) (boot : List Nat) (prog : Model.ReqCap.Rid → List Model.ReqCap.Step)
+      (datum : Model.ReqCap.Rid → Nat) (r : Model.ReqCap.Rid) (sched : List Model.ReqCap.Rid),
+      let w : Model.ReqCap.World := { kind := kind, copied := Model.ReqCap.copiedOf Generated.C11Superglobals.facts kind,
+                                      boot := boot, prog := prog, datum := datum }
+      Model.ReqCap.finished (Model.ReqCap.run w (Model.ReqCap.init w) sched) r = true →
+      Model.ReqCap.response (Model.ReqCap.run w (Model.ReqCap.init w) sched) r =
+        Spec.ReqCap.respond boot (datum r) ((prog r).map Proofs.ReqCap.toOp) := by
+  have hv : Generated.C11Superglobals.facts.captureViolations = [] := by decide
+  refine ⟨hv, ?_⟩
+  intro kind boot prog datum r sched w hdone
+  have hc : Model.ReqCap.copiedOf Generated.C11Superglobals.facts kind = true := by
+    cases kind <;> decide
+  have hp : Model.ReqCap.bindsPrivate w = true := by simp [w, Model.ReqCap.bindsPrivate, hc]
+  have h := C11_capture_isolation w hp
+  rw [h.1 r sched hdone, h.2 r]
+
+example : Model.ReqCap.bindsPrivate (capWorld .obj true capStore) = true ∧
+    Model.ReqCap.finished (Model.ReqCap.run (capWorld .obj true capStore) (Model.ReqCap.init (capWorld .obj true capStore)) capSched) 1 = true ∧
+    Model.ReqCap.response (Model.ReqCap.run (capWorld .obj true capStore) (Model.ReqCap.init (capWorld .obj true capStore)) capSched) 1 = [8, 2, 3] := by
+  decide
+
+end Capture
 
 /-! ## Non-vacuity -/
 
